@@ -1,6 +1,7 @@
 import M3d.Model.Marching
 import M3d.Gen.McTable
 import M3d.Props.C01Bitmap
+import M3d.Lemmas.MsLift3
 /-!
 # C01 — meshing always outputs a closed, consistently oriented manifold
 
@@ -82,6 +83,29 @@ theorem ms_role_rule :
     decide +kernel
   intro cfg hc
   exact List.all_eq_true.1 h cfg (List.mem_range.2 hc)
+
+/-- The single-row and row-pair facts of the regenerated marching-squares table that the lift
+below consumes (kernel-decided: 16 rows, 2 × 256 row pairs across a shared lattice edge). -/
+theorem ms_local_ok : msLocalOk msTable = true := by decide +kernel
+
+/-- **Marching squares is watertight on EVERY lattice** (the local→global lift, mechanised): for
+every lattice size and every labelling whose outer layer is outside, in the mesh assembled from
+the regenerated table every point of the plane starts as many segments as it ends, and at most
+one — every mesh vertex has exactly one incoming and one outgoing segment.  `msMesh` is the
+function the driver runs and that the correspondence compares with `MarchingSquares` /
+`MarchingSquaresFilter` triangle-for-triangle. -/
+theorem ms_closed_on_every_lattice (nx ny : Nat) (lab : Nat → Nat → Bool)
+    (hb : ∀ x y, (x = 0 ∨ y = 0 ∨ nx ≤ x ∨ ny ≤ y) → lab x y = false) (v : GV2) :
+    cnt false (msMesh msTable nx ny lab) v = cnt true (msMesh msTable nx ny lab) v ∧
+    cnt false (msMesh msTable nx ny lab) v ≤ 1 :=
+  ms_in_out_one ms_local_ok nx ny lab hb v
+
+/-- Non-vacuity: a 2×2-cell lattice with only the centre point inside gives a 4-segment loop. -/
+example :
+    let lab : Nat → Nat → Bool := fun x y => x == 1 && y == 1
+    (msMesh msTable 2 2 lab).length = 4 ∧
+      cnt false (msMesh msTable 2 2 lab) (1, 2) = 1 ∧ cnt true (msMesh msTable 2 2 lab) (1, 2) = 1 := by
+  decide
 
 /-- **Bitmap outlining is watertight at every lattice corner** (kernel-decided over all 65 536
 labellings of the 4×4 pixels around a corner, in 16 parallel chunks — `M3d/Props/C01Bitmap/`): each
